@@ -23,7 +23,7 @@ def gen_set(rng, conflict=None):
     conds = rng.sample(COND_POOL, k=rng.choice([0, 1, 2, 3]))
     files = []
     for i in range(nfiles):
-        files.append({"name": f"f{i}.fga" if rng.random() < 0.8 else f"dir{i}/m.fga", "module": rng.choice(MODULES) if rng.random() < 0.5 else MODULES[i % len(MODULES)],
+        files.append({"name": f"f{i}.fga" if rng.random() < 0.7 else rng.choice([f"dir{i}/m.fga", f"dir{i}\\m.fga", f"Dir {i}/M{i}.fga", f"./f{i}.fga"]), "module": rng.choice(MODULES) if rng.random() < 0.5 else MODULES[i % len(MODULES)],
                       "decls": [], "broken": None})
     # base types
     base = {}
@@ -62,7 +62,7 @@ def gen_set(rng, conflict=None):
 CONFLICTS = ["duplicate-type", "duplicate-type-same-file", "duplicate-condition", "extend-missing",
              "duplicate-relation-base", "duplicate-relation-two-extensions", "model-header", "model-header-with-condition",
              "syntax-error", "extended-twice-in-file", "define-and-extend-same-file-ok", "two-extend-relationless-ok",
-             "blank-file"]
+             "blank-file", "case-twin-relations", "case-twin-conditions", "same-name-files-ok"]
 
 
 def inject(rng, files, names, conds, kind):
@@ -143,6 +143,48 @@ def inject(rng, files, names, conds, kind):
              "broken": rng.choice(["blank", "blank", "comment-only"])}
         files.insert(rng.randrange(len(files) + 1), f)
         return {"kind": kind, "conflict": True}
+    if kind == "case-twin-relations":
+        # a type with two relations whose names differ only in case, both re-declared by an extension in another file:
+        # two errors whose order must not depend on anything but the files
+        if len(files) < 2:
+            return None
+        cands = [(f, d) for f in files for d in types_of(f)]
+        if not cands:
+            return None
+        f, d = rng.choice(cands)
+        twins = rng.choice([("viewer", "Viewer"), ("Editor", "editor"), ("admin", "ADMIN")])
+        have = {r for r, _ in d[2]}
+        for r in twins:
+            if r not in have:
+                d[2].append((r, simple_expr(rng, [r], names, [])))
+        g = rng.choice([x for x in files if x is not f])
+        g["decls"] = [x for x in g["decls"] if not (x[0] == "extend" and x[1] == d[1])]
+        order = list(twins)
+        rng.shuffle(order)
+        insert_type_decl(g, ("extend", d[1], [(r, simple_expr(rng, [r], names, [])) for r in order]))
+        return {"kind": kind, "conflict": True, "type": d[1], "relations": list(twins)}
+    if kind == "case-twin-conditions":
+        twins = rng.choice([("check", "Check"), ("In_window", "in_window")])
+        for c in twins:
+            if not any(d[0] == "cond" and d[1]["name"] == c for f in files for d in f["decls"]):
+                rng.choice(files)["decls"].append(("cond", dslgen.gen_condition(rng, c)))
+        g = rng.choice(files)
+        order = list(twins)
+        rng.shuffle(order)
+        for c in order:
+            g["decls"].append(("cond", dslgen.gen_condition(rng, c)))
+        return {"kind": kind, "conflict": True, "conditions": list(twins)}
+    if kind == "same-name-files-ok":
+        # two entries of the list carry the same file name, and each extends a type: nothing conflicts
+        if len(files) < 2:
+            return None
+        f0 = rng.choice(files)
+        insert_type_decl(f0, ("type", "shared", []))
+        f1, f2 = rng.sample(files, 2)
+        f2["name"] = f1["name"]
+        insert_type_decl(f1, ("extend", "shared", [("viewer", simple_expr(rng, ["viewer"], names, []))]))
+        insert_type_decl(f2, ("extend", "shared", [("editor", simple_expr(rng, ["editor"], names, []))]))
+        return {"kind": kind, "conflict": False}
     if kind == "extended-twice-in-file":
         cands = [(f, d) for f in files for d in f["decls"] if d[0] == "extend"]
         if not cands:
